@@ -6,9 +6,12 @@ Decided here:
      (obligations of C03, C04, C06 restricted to their parallel-order variants) -- together with C11 (no conflicting pair inside
      a phase) this is thread-count independence up to re-association;
  (K) the vector kernels of vector_operations.h equal their mathematical definition (Layer R, n <= 5 unwound: bounded).
+ (T) thread-team semantics of the elementwise kernels and of Vector copy assignment: `parallel for` -> the loop, a `parallel` region ->
+     its block once per thread with omp_get_num_threads / omp_get_thread_num bound; every element is written exactly once and the copy
+     equals its source for team sizes 1..6 (n = 7, 12, 13; the 10'000 threshold of the if-clauses is generalised to 0 / never).
 NOT decided: bit-for-bit reproducibility (rounding; the `reduction` clauses let the runtime choose the association order)."""
 import re
-from vlib import Src, Rules, Job, ExtractError, common_body_rewrites, sha
+from vlib import match_close, ExtractError, Src, Rules, Job, ExtractError, common_body_rewrites, sha
 import units
 import C03, C04, C06
 
@@ -62,15 +65,166 @@ def kernel_job(n):
     return j
 
 
+# ---- thread-team semantics at the parallel threshold: elementwise kernels and Vector copy assignment ----------------------------
+TEAM_PRELUDE = r"""
+#define NMAX @NMAX@
+int nondet_int(void);
+typedef long elem_t;      /* element values are opaque tokens here: only WHICH elements are read / written and from where matters */
+static elem_t DST[NMAX], SRC[NMAX]; static int DST_size, SRC_size;
+static int visits[NMAX];  /* ghost: number of writes to DST[i] */
+static int g_team;        /* omp: number of threads of a parallel region whose if-clause holds */
+static int g_thresh;      /* generalised size threshold of the if-clauses */
+static _Bool g_oob;       /* ghost: some access was outside its vector (accumulated: one obligation per kernel run instead of one per access) */
+static int CLAMP(int i, int n) { if (i < 0 || i >= n) { g_oob = 1; return 0; } return i; }
+#define W(i) (visits[CLAMP((i), DST_size)]++, CLAMP((i), DST_size))
+#define R(i) CLAMP((i), SRC_size)
+/* std::copy_n(src + a, n, dst + b) */
+#define COPY_N(soff, n, doff) do { for (int q_ = 0; q_ < (n); q_++) DST[W((doff) + q_)] = SRC[R((soff) + q_)]; } while (0)
+"""
+
+
+def team_semantics(b, rules, fname):
+    """OpenMP constructs of a kernel -> their sequential meaning:
+    `parallel for [if (c)]` + loop  -> the loop (iterations are independent: race freedom is C11's obligation);
+    `parallel [if (c)]` + block     -> the block executed once per thread of the team, team = (c) ? g_team : 1, with
+                                       omp_get_num_threads() / omp_get_thread_num() bound to the team size / the thread index."""
+    out, n_for, n_par = b, 0, 0
+    while True:
+        m = re.search(r"^[ \t]*#[ \t]*pragma[ \t]+omp[ \t]+parallel\b([^\n]*)$", out, re.M)
+        if not m:
+            break
+        clauses = m.group(1).strip()
+        if clauses.startswith("for"):
+            out = out[:m.start()] + out[m.end():]
+            n_for += 1
+            continue
+        cm = re.search(r"\bif\s*\(", clauses)
+        cond = "1"
+        if cm:
+            po = cm.end() - 1
+            cond = clauses[po + 1:match_close(clauses, po, "(", ")")]
+            # the size threshold of the if-clause (10'000) is generalised to g_thresh, which the harness sets to 0 (region always
+            # parallel) and to a huge value (never): a vector of 10 001 elements is beyond what CBMC's symbolic execution can run
+            cond, k_ = re.subn(r"\b\d[\d']{3,}\b", "g_thresh", cond)
+            rules.log.append(("C12.threshold_generalised(%s)" % fname, k_))
+        bo = out.index("{", m.end())
+        if out[m.end():bo].strip():
+            raise ExtractError("%s: parallel region is not a block" % fname)
+        bc = match_close(out, bo, "{", "}")
+        body = out[bo + 1:bc]
+        body = re.sub(r"\bomp_get_num_threads\(\)", "team_", body)
+        body = re.sub(r"\bomp_get_thread_num\(\)", "tid_", body)
+        out = out[:m.start()] + "{ const int team_ = (%s) ? g_team : 1; for (int tid_ = 0; tid_ < team_; tid_++) {%s} }" % (cond, body) + out[bc + 1:]
+        n_par += 1
+    if re.search(r"#\s*pragma\s+omp", out):
+        raise ExtractError("%s: unsupported OpenMP construct" % fname)
+    rules.log.append(("C12.team_semantics(%s: parallel for %d, parallel region %d)" % (fname, n_for, n_par), n_for + n_par))
+    return out
+
+
+def wrap_rw(text, dst, src):
+    """DST-like vector `dst`: subscripts followed by an assignment operator are writes (W), all others reads of the same vector are
+    ignored here; `src` subscripts are reads (R)"""
+    from vlib import match_close as mc
+    out, pos = [], 0
+    pat = re.compile(r"\b(%s)\s*\[" % "|".join(map(re.escape, [dst] + ([src] if src else []))))
+    while True:
+        m = pat.search(text, pos)
+        if not m:
+            out.append(text[pos:])
+            break
+        bo = m.end() - 1
+        bc = mc(text, bo, "[", "]")
+        inner = text[bo + 1:bc]
+        after = text[bc + 1:bc + 6]
+        is_write = re.match(r"\s*(=(?!=)|\+=|-=|\*=|/=)", after) is not None
+        out.append(text[pos:m.start()])
+        if m.group(1) == dst:
+            out.append("DST[%s]" % (("W(%s)" % inner) if is_write else inner))
+        else:
+            out.append("SRC[R(%s)]" % inner)
+        pos = bc + 1
+    return "".join(out)
+
+
+def team_job(n, teams=(1, 2, 3, 4)):
+    rules, hashes = Rules("C12"), {}
+    c = [TEAM_PRELUDE.replace("@NMAX@", str(n + 2))]
+    calls = []
+    # Vector<T>::operator=(const Vector&)
+    f = Src.get("include/LinearAlgebra/vector.h").function("Vector<T>::operator=", must_params=["other"], occurrence=0)
+    if "const Vector" not in f["params_text"]:
+        raise ExtractError("Vector copy assignment not found")
+    hashes["Vector::operator=(const Vector&)"] = sha(f["body"])
+    b = team_semantics(f["body"], rules, "Vector::operator=")
+    b = rules.sub("C12.self_assignment", r"\bthis\s*==\s*&other\b", "0 /* distinct objects */", b, expect=1)
+    b = rules.sub("C12.return_self", r"return\s+\*this;", "return;", b, expect="+")
+    b = rules.sub("C12.realloc", r"\bvalues_\s*=\s*std::make_unique<T\[\]>\(size_\);", "DST_size = size_;", b, expect=1)
+    b = rules.sub("C12.copy_n", r"std::copy_n\(other\.values_\.get\(\)\s*\+\s*([^,]+),\s*([^,]+),\s*values_\.get\(\)\s*\+\s*([^;]+)\);", r"COPY_N(\1, \2, \3);", b)
+    b = re.sub(r"\bother\.values_\b", "SRCV", b)
+    b = re.sub(r"\bother\.size_\b", "SRC_size", b)
+    b = wrap_rw(wrap_rw(b, "values_", None).replace("DST[", "DSTV["), "SRCV", None).replace("DST[", "SRC[R(").replace("DSTV[", "DST[")
+    b = re.sub(r"SRC\[R\(([^\]]*)\]", r"SRC[R(\1)]", b)
+    b = common_body_rewrites(b, rules, "I")
+    b = re.sub(r"\bsize_\b", "DST_count", b)
+    if re.search(r"std::|\bvalues_\b|\bother\b", b):
+        raise ExtractError("Vector copy assignment: unhandled construct `%s`" % re.search(r"std::\w+|\bvalues_\b|\bother\b", b).group(0))
+    c.append("static int DST_count;\nstatic void vector_copy_assign(void)\n{%s}\n" % b)
+    calls.append(("Vector::operator=(const Vector&)", "DST_count = nondet_int(); __CPROVER_assume(DST_count == N || DST_count == 0); vector_copy_assign();", "DST_count == N && "))
+    # elementwise kernels of vector_operations.h
+    src = Src.get("include/LinearAlgebra/vector_operations.h")
+    for k, dst, srcv in (("assign", "lhs", None), ("add", "result", "x"), ("subtract", "result", "x"), ("linear_combination", "x", "y"), ("multiply", "x", None)):
+        f = src.function(k, occurrence=0)
+        hashes["vector_operations::" + k] = sha(f["body"])
+        b = team_semantics(f["body"], rules, k)
+        b = rules.sub("R8.throw", r"throw\s+std::(\w+)\(([^;]*)\);", "return;", b)
+        b = rules.sub("C12.size_t", r"\bstd::size_t\b", "int", b)
+        b = re.sub(r"\b%s\.size\(\)" % dst, "DST_size", b)
+        if srcv:
+            b = re.sub(r"\b%s\.size\(\)" % srcv, "SRC_size", b)
+        b = wrap_rw(b, dst, srcv)
+        b = common_body_rewrites(b, rules, "I")
+        b = re.sub(r"\b(value|alpha|beta)\b", "((elem_t)1)", b)
+        b = b.replace("real_t", "elem_t")
+        if re.search(r"std::|\.size\(", b):
+            raise ExtractError("kernel %s: unhandled construct" % k)
+        c.append("static void kernel_%s(void)\n{%s}\n" % (k, b))
+        calls.append(("vector_operations::" + k, "kernel_%s();" % k, ""))
+    h = ["#define N %d" % n, "static void reset(void) { g_oob = 0; DST_size = N; SRC_size = N; for (int i = 0; i < N; i++) { visits[i] = 0; DST[i] = -1; SRC[i] = 7 * (elem_t)i + 3; } }",
+         "static _Bool once(void) { for (int i = 0; i < N; i++) if (visits[i] != 1) return 0; return 1; }",
+         "static _Bool copied(void) { for (int i = 0; i < N; i++) if (DST[i] != SRC[i]) return 0; return 1; }",
+         "void harness(void) {"]
+    # every input is concrete (lengths, team size, element tokens): CBMC's symbolic execution runs the kernels; one obligation per run
+    for (t, th) in [(t_, th_) for t_ in teams for th_ in (0, 1000000)]:
+        if th and t != teams[0]:
+            continue        # region never parallel: the team size is irrelevant, one run suffices
+        for (name, call, pre) in calls:
+            variants = [("DST_count = N;", "same size"), ("DST_count = 0;", "reallocating")] if name.startswith("Vector::operator=") else [("", "")]
+            for (init, vn) in variants:
+                tag = "%s, %s%s" % (name, ("team=%d" % t) if not th else "if-clause false", (", " + vn) if vn else "")
+                h.append("  reset(); g_team = %d; g_thresh = %d; %s %s" % (t, th, init, call.split("; ")[-1] if name.startswith("Vector::operator=") else call))
+                h.append("  __CPROVER_assert(!g_oob, \"OBL:kernel accesses stay inside the vectors [%s]\");" % tag)
+                h.append("  __CPROVER_assert(once(), \"OBL:every element is written exactly once [%s]\");" % tag)
+                if name.startswith("Vector::operator="):
+                    h.append("  __CPROVER_assert(copied(), \"OBL:copy assignment makes every element equal to the source [%s]\");" % tag)
+    h += ["  __CPROVER_assert(0, \"COVER:reached_end\");", "}"]
+    j = Job("C12.team[n=%d]" % n, "\n".join(c + h), "P", unwind=n + 3, timeout=900,
+            bounded="unwind %d; vector length n = %d, size threshold of the if-clauses generalised (0 and 10^6), team size in %s; concrete element tokens (the kernels are executed)" % (n + 3, n, list(teams)),
+            functions=["Vector::operator=(const Vector&)"] + ["vector_operations.h::" + k for k in ("assign", "add", "subtract", "linear_combination", "multiply")],
+            covers={"COVER:reached_end"}, extra=["--max-field-sensitivity-array-size", "20000"])
+    j.rules, j.hashes = rules, hashes
+    return j
+
+
 def keep_parallel(label):
     tags_ok = ("give_parallel_branch_eq_take" in label) or ("matrix_row_equals_operator_row" in label) or label.startswith("OBL:exact_solution") or \
               label.startswith("OBL:residual_vanishes") or label.startswith("OBL:the_sweep") or ("_is_" in label and label.startswith("OBL:")) or \
-              label.startswith("COVER:")
+              label.startswith("COVER:") or label.startswith(("OBL:every element is written", "OBL:copy assignment makes", "OBL:kernel accesses stay"))
     return tags_ok
 
 
 def build_jobs(tier, seed):
-    jobs = [kernel_job(3), kernel_job(5)]
+    jobs = [kernel_job(3), kernel_job(5), team_job(7), team_job(12), team_job(13, teams=(1, 2, 3, 4, 5, 6))]
     shapes = [(6, 6, 3), (5, 8, 2), (5, 4, 2)] if tier == "quick" else [(6, 6, 3), (5, 8, 2), (5, 4, 2), (6, 12, 2), (7, 10, 4)]
     for (nr, nt, nsc) in shapes:
         jobs += C03.jobs_for(nr, nt, nsc, 0)                                # give (sequential + parallel order) vs take
@@ -93,7 +247,13 @@ def run(tier, seed, work):
     rep = vlib.Report("C12", tier, seed)
     jobs = build_jobs(tier, seed)
     vlib.run_jobs(jobs, work)
-    rep.absorb(jobs, replay_cb=vlib.ops_replay_cb("givetake"), keep=lambda d: (not d.startswith("OBL:")) or keep_parallel(d))
+    ops_cb = vlib.ops_replay_cb("givetake")
+
+    def replay_cb(job, key, label, rec):
+        if job.name.startswith("C12.team"):
+            return vlib.native_driver("replay_vector_copy", [])
+        return ops_cb(job, key, label, rec)
+    rep.absorb(jobs, replay_cb=replay_cb, keep=lambda d: (not d.startswith("OBL:")) or keep_parallel(d))
     rep.extraction = {"rules_fired": jobs[0].rules.summary(), "body_sha256_16": jobs[0].hashes}
     rep.trusted = ["double treated as mathematical real", "CBMC 6.11 + z3 5.1", "extractor rules", "C11 for the order inside a phase"]
     rep.assumptions = ["shape-bounded", "kernel length bounded (3, 5)", "OpenMP `reduction` clauses race-free by construction (trusted)"]
